@@ -750,7 +750,19 @@ class BuiltinModelLoaderGen(ModelLoaderGen):
             field_loader = state.v_field_loader(field_id)
             processing_expr = f"{field_loader}({loader_arg})"
 
-        if self._debug_trail in (DebugTrail.ALL, DebugTrail.FIRST):
+        if self._debug_trail == DebugTrail.ALL:
+            state.builder(
+                f"""
+                try:
+                    {assign_to} = {processing_expr}
+                except LoadError as e:
+                    {state.emit_error('e')}
+                except Exception as e:
+                    {state.emit_error('e')}
+                    has_unexpected_error = True
+                """,
+            )
+        elif self._debug_trail == DebugTrail.FIRST:
             state.builder(
                 f"""
                 try:
